@@ -21,7 +21,7 @@
 #error "compile with -DPROP=17 or 18"
 #endif
 
-enum { K_SCEN = VC_USER, K_POINTS, K_MAXPOINTS, K_SHARED_ADDRS, K_SHARED_WRITTEN, K_SELFTEST_EXEC, K_WATCH_CALLS, K_TREES, K_TREES_WITH_TAG, K_OPS, K_BOUND0, K_BOUND1, K_BOUND2, K_BOUND3, K_REDUCED, K_UNREDUCED, K_CAPPED };
+enum { K_SCEN = VC_USER, K_POINTS, K_MAXPOINTS, K_SHARED_ADDRS, K_SHARED_WRITTEN, K_SELFTEST_EXEC, K_WATCH_CALLS, K_TREES, K_TREES_WITH_TAG, K_OPS, K_BOUND0, K_BOUND1, K_BOUND2, K_BOUND3, K_REDUCED, K_UNREDUCED, K_CAPPED, K_SWEEP };
 
 static uint64_t fnv(uint64_t h, const void* p, size_t n) {
   const unsigned char* b = p;
@@ -482,9 +482,122 @@ static void watch_unit(void) {
 }
 #endif
 
+#if PROP == 17
+/* 'The library keeps no hidden mutable global state', decided on the whole input space without any scheduling: in the trace build every
+ * store of library code is observed; a store whose address is neither in an allocator arena nor on the caller's stack is a store to a
+ * global / static object.  Every input of the pushdown DFS, every boundary-corpus item and every constructed tree goes through
+ * decode - describe - size - serialize - serialize_alloc - copy - release, the streaming decoder and the encoders. */
+static FILE* sweep_null;
+static void sweep_judge(const struct vs_exec* e, const char* what, const uint8_t* b, size_t n) {
+  if (e->global_writes) {
+    char a[160], c[160], hx[80];
+    vf_hex(hx, sizeof hx, b, n < 36 ? n : 36);
+    vf_fail(NULL, "%s of input %s: library code (%s) stores to %s: hidden mutable global state", what, hx, symname(e->global_pc, a, sizeof a), addrname(e->global_addr, c, sizeof c));
+  }
+}
+static void sweep_input(const uint8_t* b, size_t n) {
+  vf_case("sweep", b, n > 4000 ? 4000 : n);
+  vf_cnt(K_SWEEP, 1);
+  vf_cnt(VC_EVAL, 1);
+  vs_reset_arenas();
+  struct cbor_load_result res;
+  vs_watch_begin();
+  cbor_item_t* it = cbor_load(b, n, &res);
+  if (it) {
+    cbor_describe(it, sweep_null);
+    size_t sz = cbor_serialized_size(it);
+    unsigned char* out = vs_malloc(sz + 1);
+    if (out) (void)cbor_serialize(it, out, sz);
+    unsigned char* ab = NULL;
+    size_t abs_ = 0;
+    (void)cbor_serialize_alloc(it, &ab, &abs_);
+    cbor_item_t* c = cbor_copy(it);
+    if (c) cbor_decref(&c);
+    cbor_decref(&it);
+  }
+  /* the streaming decoder over the same bytes */
+  size_t off = 0;
+  vf_rec rec;
+  while (off < n) {
+    vf_rec_reset(&rec);
+    struct cbor_decoder_result r = cbor_stream_decode(b + off, n - off, &vf_rec_callbacks, &rec);
+    if (r.status != CBOR_DECODER_FINISHED || r.read == 0) break;
+    off += r.read;
+  }
+  struct vs_exec e = vs_watch_end();
+  sweep_judge(&e, "decode/describe/serialize/copy/release", b, n);
+}
+static void sweep_seq_cb(const vf_seq* s, void* ctx) {
+  (void)ctx;
+  uint8_t buf[12 * 16];
+  memcpy(buf, s->bytes, s->n);
+  sweep_input(buf, s->n);
+}
+static void sweep_misc(void) {
+  /* builders, setters, encoders with the values of the structured sets, strings incl. invalid UTF-8 */
+  vf_case("sweep-misc", "", 0);
+  vs_reset_arenas();
+  vs_watch_begin();
+  unsigned char o[16];
+  for (unsigned i = 0; i < VF_NS64; i++) {
+    uint64_t v = VF_S64[i];
+    float f; uint32_t u32 = (uint32_t)v; memcpy(&f, &u32, 4);
+    double d; memcpy(&d, &v, 8);
+    (void)cbor_encode_uint8((uint8_t)v, o, 16); (void)cbor_encode_uint16((uint16_t)v, o, 16); (void)cbor_encode_uint32((uint32_t)v, o, 16); (void)cbor_encode_uint64(v, o, 16); (void)cbor_encode_uint(v, o, 16);
+    (void)cbor_encode_negint8((uint8_t)v, o, 16); (void)cbor_encode_negint16((uint16_t)v, o, 16); (void)cbor_encode_negint32((uint32_t)v, o, 16); (void)cbor_encode_negint64(v, o, 16); (void)cbor_encode_negint(v, o, 16);
+    (void)cbor_encode_bytestring_start(v, o, 16); (void)cbor_encode_string_start(v, o, 16); (void)cbor_encode_array_start(v, o, 16); (void)cbor_encode_map_start(v, o, 16); (void)cbor_encode_tag(v, o, 16);
+    (void)cbor_encode_half(f, o, 16); (void)cbor_encode_single(f, o, 16); (void)cbor_encode_double(d, o, 16); (void)cbor_encode_ctrl((uint8_t)v, o, 16); (void)cbor_encode_bool(v & 1, o, 16);
+    if ((i & 15) == 0) vs_reset_arenas();
+    cbor_item_t* items[] = {cbor_build_uint8((uint8_t)v), cbor_build_uint16((uint16_t)v), cbor_build_uint32((uint32_t)v), cbor_build_uint64(v), cbor_build_negint8((uint8_t)v), cbor_build_negint64(v),
+                            cbor_build_float2(f), cbor_build_float4(f), cbor_build_float8(d), cbor_build_ctrl((uint8_t)v), cbor_build_bool(v & 1), cbor_new_null(), cbor_new_undef(),
+                            cbor_build_stringn((const char*)&v, 8), cbor_build_bytestring((cbor_data)&v, 8), cbor_build_string("\xc3\xa9\xff")};
+    for (unsigned k = 0; k < sizeof items / sizeof items[0]; k++)
+      if (items[k]) { (void)cbor_serialized_size(items[k]); (void)cbor_serialize(items[k], o, 16); cbor_decref(&items[k]); }
+    vf_cnt(K_SWEEP, 1);
+  }
+  struct vs_exec e = vs_watch_end();
+  sweep_judge(&e, "builders / encoders", (const uint8_t*)"", 0);
+}
+static void sweep_con_unit(uint64_t u) {
+  vt_choices ch;
+  memset(&ch, 0, sizeof ch);
+  unsigned want[3] = {(unsigned)(u / 128), (unsigned)(u / 16 % 8), (unsigned)(u % 16)};
+  for (int i = 0; i < 3; i++) ch.c[i] = (uint8_t)want[i];
+  ch.fixed = 3;
+  uint64_t ord = 0;
+  for (;;) {
+    vs_reset_arenas();
+    vs_watch_begin();
+    cbor_item_t* t = vt_build(&ch, 2);
+    bool valid = true;
+    if (ord == 0)
+      for (unsigned i = 0; i < 3; i++)
+        if (i < ch.n ? want[i] >= ch.arity[i] : want[i] != 0) valid = false;
+    if (t && valid && (vf_tier || ord % 8 == 0)) {
+      vf_case("sweep-ctree", ch.c, VT_MAXCHOICES);
+      cbor_describe(t, sweep_null);
+      size_t sz = cbor_serialized_size(t);
+      unsigned char* out = vs_malloc(sz + 1);
+      if (out) (void)cbor_serialize(t, out, sz);
+      cbor_item_t* c = cbor_copy(t);
+      if (c) cbor_decref(&c);
+      vf_cnt(K_SWEEP, 1);
+      vf_cnt(VC_EVAL, 1);
+    }
+    if (t) cbor_decref(&t);
+    struct vs_exec e = vs_watch_end();
+    if (valid) sweep_judge(&e, "construction / describe / serialize / copy of a constructed tree", ch.c, 8);
+    if (!valid) return;
+    ord++;
+    if (!vt_next(&ch)) break;
+  }
+}
+static uint64_t sweep_dfs_units, sweep_con_units = 256;
+#endif
+
 #if PROP == 18
 static unsigned dfs_k;
-static uint64_t dfs_units, con_units = 128, e5_units;
+static uint64_t dfs_units, con_units = 256, e5_units;
 static void a_seq_cb(const vf_seq* s, void* ctx) {
   (void)ctx;
   if (s->status != VD_ACCEPT) return;
@@ -503,7 +616,7 @@ static void a_seq_cb(const vf_seq* s, void* ctx) {
 static void a_con_unit(uint64_t u) {
   vt_choices ch;
   memset(&ch, 0, sizeof ch);
-  unsigned want[3] = {(unsigned)(u / 64), (unsigned)(u / 8 % 8), (unsigned)(u % 8)};
+  unsigned want[3] = {(unsigned)(u / 128), (unsigned)(u / 16 % 8), (unsigned)(u % 16)};
   for (int i = 0; i < 3; i++) ch.c[i] = (uint8_t)want[i];
   ch.fixed = 3;
   vs_reset_arenas();
@@ -576,7 +689,14 @@ static void unit(uint64_t u) {
 #if PROP == 17
   if (u == 0) { selftest_unit(); return; }
   if (u == 1) { watch_unit(); return; }
-  scen_unit((unsigned)(u - 2));
+  if (u < 2 + nscen) { scen_unit((unsigned)(u - 2)); return; }
+  u -= 2 + nscen;
+  if (u < sweep_dfs_units) { vf_dfs_unit(&VF_SIGMA, vf_tier ? 5 : 4, u, CBOR_MAX_STACK_SIZE, 64 * 1024, sweep_seq_cb, NULL); return; }
+  u -= sweep_dfs_units;
+  if (u < vf_corpus_count()) { size_t n; const uint8_t* b = vf_corpus_item(u, &n, NULL); if (n < 20000) sweep_input(b, n); return; }
+  u -= vf_corpus_count();
+  if (u < sweep_con_units) { sweep_con_unit(u); return; }
+  sweep_misc();
 #else
 #ifndef VF_MPROTECT
   if (u == 0) { selftest_unit(); return; }
@@ -593,7 +713,7 @@ static void unit(uint64_t u) {
 }
 static uint64_t units(void) {
 #if PROP == 17
-  return 2 + nscen;
+  return 2 + nscen + sweep_dfs_units + vf_corpus_count() + sweep_con_units + 1;
 #else
 #ifdef VF_MPROTECT
   return dfs_units + con_units;
@@ -612,6 +732,10 @@ static void init(void) {
   for (int i = 0; i < 4; i++)
     for (int j = i; j < 4; j++)
       for (int k = j; k < 4; k++) { SCEN[nscen][0] = i; SCEN[nscen][1] = j; SCEN[nscen][2] = k; SCEN_N[nscen++] = 3; }
+  vf_corpus_init();
+  vf_sets_init();
+  sweep_null = fopen("/dev/null", "w");
+  sweep_dfs_units = vf_dfs_units(&VF_SIGMA);
 #else
   dfs_k = vf_tier ? 4 : 3;
   dfs_units = vf_dfs_units(&VF_SIGMA);
@@ -627,6 +751,9 @@ static void replay(const char* tag, const uint8_t* d, size_t len) {
   if (!strcmp(tag, "selftest")) { selftest_unit(); return; }
 #if PROP == 17
   if (!strcmp(tag, "watch")) { watch_unit(); return; }
+  if (!strcmp(tag, "sweep")) { sweep_input(d, len); return; }
+  if (!strcmp(tag, "sweep-misc")) { sweep_misc(); return; }
+  if (!strcmp(tag, "sweep-ctree")) { fprintf(stderr, "constructed-tree sweep cases are enumerated by unit: re-run the check\n"); return; }
   if (len >= 4) {
     for (unsigned s = 0; s < nscen; s++)
       if (SCEN_N[s] == d[0] && SCEN[s][0] == d[1] && SCEN[s][1] == d[2] && (d[0] == 2 || SCEN[s][2] == d[3])) { scen_unit(s); return; }
@@ -663,7 +790,10 @@ struct vf_check vf_the_check = {
             "allocator configured once. Per scenario: (1) reduced exploration, preemption bound 0,1,2: scheduling points only at conflict candidates (addresses touched by >= 2 threads with >= 1 store), closed "
             "under re-exploration; (2) unreduced exploration: every access of library code to non-thread-private memory is a scheduling point, pairs to bound 2 (3 in the thorough tier), triples to bound 1 (2), each capped at 400 000 (4 000 000) schedules. evaluations = complete "
             "schedules executed on the real object code, transitions = scheduling points taken, states = schedules; distinct_nontrivial = scenarios. Oracles on every execution: no conflicting access pair, no "
-            "store to a global/static object, no access to another thread's private memory, per-thread result digest = digest of the thread running alone",
+            "store to a global/static object, no access to another thread's private memory, per-thread result digest = digest of the thread running alone. "
+            "(3) Global-state sweep, no scheduling needed: every input of the pushdown DFS over Sigma (4/5 heads), every boundary-corpus item, every 8th (every) constructed tree and all builders / "
+            "encoders on the structured value sets are run through the whole client pipeline in the trace build; any store of library code to memory that is neither an allocator arena nor the "
+            "caller's stack is hidden mutable global state",
     .bounds = {"pairs + triples; reduced to bound 2; unreduced to bound 2 (pairs) / 1 (triples)", "pairs + triples; reduced to bound 2; unreduced to bound 3 (pairs) / 2 (triples), capped at 4 000 000 schedules per scenario"},
 #else
     .property = "C18",
@@ -684,5 +814,5 @@ struct vf_check vf_the_check = {
                  [K_SHARED_WRITTEN] = "shared_addresses_written_summed_over_explorations", [K_SELFTEST_EXEC] = "selftest_schedules", [K_WATCH_CALLS] = "store_watched_decoder_calls",
                  [K_TREES] = "trees_frozen", [K_TREES_WITH_TAG] = "trees_containing_a_tag", [K_OPS] = "read_only_operations_on_frozen_trees", [K_BOUND0] = "explorations_completed_at_bound_0",
                  [K_BOUND1] = "explorations_completed_at_bound_1", [K_BOUND2] = "explorations_completed_at_bound_2", [K_BOUND3] = "explorations_completed_at_bound_3",
-                 [K_REDUCED] = "schedules_in_reduced_explorations", [K_UNREDUCED] = "schedules_in_unreduced_explorations", [K_CAPPED] = "unreduced_explorations_capped"},
+                 [K_REDUCED] = "schedules_in_reduced_explorations", [K_UNREDUCED] = "schedules_in_unreduced_explorations", [K_CAPPED] = "unreduced_explorations_capped", [K_SWEEP] = "inputs_and_trees_swept_for_stores_to_global_objects"},
     .init = init, .units = units, .unit = unit, .replay = replay, .states_counter = VC_EVAL + 1};
